@@ -1316,6 +1316,28 @@ Section SoEProofs.
   Qed.
 End SoEProofs.
 
+Section EigenSolveProofs.
+  Context {K : Type} `{NK : Num K}.
+  Variable F : Type.
+  Variable factorise : list K -> F.
+  Variable shifted : list (list K) -> list K.
+  Variable sigma_nonzero : bool.
+  Variable eigs : F -> list (list K) -> list (list K).
+  Variable eig_adj : list (list K) -> list (list K) -> list (list K) -> list (option (list K)).
+
+  (* by induction over the calls (this is what cache_correct packages): the shift-invert factorisation used by
+     call k is that of the k-th shifted matrix *)
+  Theorem eigensolve_cache_correct ins outs :
+    cache_correct (eigensolve_h F factorise shifted sigma_nonzero eigs eig_adj ins outs) (None, false)
+                  (eigensolve_good F factorise shifted) (eigensolve_f F factorise shifted eigs)
+                  (fun xs ys ws => eig_adj xs ys ws).
+  Proof.
+    split; [reflexivity|]. split.
+    - intros mu last xs G. destruct last as [xs0|]; simpl in G; subst mu; simpl; split; reflexivity.
+    - intros mu xs ws _. reflexivity.
+  Qed.
+End EigenSolveProofs.
+
 (* ====================================================================================================
    The executable test modules meet the hypotheses of the theorems (non-vacuity) *)
 Section ExecProofs.
@@ -1561,3 +1583,9 @@ Proof.
   split; [exact ex_admissible|]. split; [repeat constructor; eexists _, _; reflexivity|].
   split; [repeat constructor|]. vm_compute. reflexivity.
 Qed.
+
+(* the class flag cached from the first (symmetric) matrix makes the second (non-symmetric) solve wrong *)
+Lemma class_change_counterexample :
+  s_st (run (fun _ => false) [flagged_linsolve_h] cls_hist cls_start) 2 = [3; 1]%Z /\
+  s_st (run (fun _ => false) [flagged_linsolve_h] cls_fresh cls_start) 2 = [1; 1]%Z.
+Proof. split; vm_compute; reflexivity. Qed.
